@@ -186,6 +186,11 @@ def run_case(ctx, name, params):
                 cands.append((sign * best[0], best[1]))
             cands.sort(key=lambda t: t[0])
             tops = cands[:params["starts"]]
+            if coords is not None and len(coords) == n:
+                # the documented optimum itself is always a start: anything better right next to it is found by the
+                # shrinking pattern (steps from 1/8 of the range down to 1e-7 of it)
+                v0, q0 = fs([float(c) for c in coords])
+                tops = tops + [(v0, q0)]
             for v0, q0 in tops:
                 # coordinate pattern search
                 x, fx = list(q0), v0
